@@ -21,7 +21,6 @@ import (
 	"context"
 	"encoding/json"
 	"fmt"
-	"io"
 	"log"
 	"os"
 	"os/exec"
@@ -32,6 +31,7 @@ import (
 	"strings"
 	"sync"
 	"sync/atomic"
+	"syscall"
 	"time"
 
 	"github.com/sourcegraph/zoekt"
@@ -1260,14 +1260,26 @@ func runRScan(sq rscanSeq, class string) gen.Case {
 		if st.plain != "" {
 			apply(st.plain)
 		}
-		run := func(ops []string) func([]string) {
+		snap := func() map[string]diskFile {
+			m := map[string]diskFile{}
+			for k, v := range files {
+				m[k] = *v
+			}
+			return m
+		}
+		atStart := snap() // what scan stats
+		var atLoad map[string]diskFile
+		run := func(ops []string, isPre bool) func([]string) {
 			return func([]string) {
 				for _, o := range ops {
 					apply(o)
 				}
+				if isPre {
+					atLoad = snap() // what the loader reads
+				}
 			}
 		}
-		sc.SetLoadHooks(run(st.pre), run(st.post))
+		sc.SetLoadHooks(run(st.pre, true), run(st.post, false))
 		calls, err, pan := sc.Scan()
 		sc.SetLoadHooks(nil, nil)
 		if pan != "" || err != nil {
@@ -1285,6 +1297,21 @@ func runRScan(sq rscanSeq, class string) gen.Case {
 			if _, err, pan := sc.Scan(); pan != "" || err != nil {
 				return fail(i, "scan-panic", "scan failed: %v %s", err, pan)
 			}
+		}
+		// A-B-A during the load: a file that is, after the scan, exactly as scan stat'ed it, but was different at the moment
+		// the loader read it (a sidecar that appeared and vanished again within one scan). mtimes cannot show that.
+		aba := func(repoName string) bool {
+			var ri int
+			fmt.Sscanf(repoName, "repo%d", &ri)
+			for _, v := range []int{17, 16} {
+				name := shardBase(ri, v)
+				if f := files[name]; f != nil {
+					s0, ok0 := atStart[name]
+					l0, okl := atLoad[name]
+					return ok0 && s0 == *f && (!okl || l0 != s0)
+				}
+			}
+			return false
 		}
 		// expected: newest format version present per repository
 		wantKeys := []string{}
@@ -1317,7 +1344,11 @@ func runRScan(sq rscanSeq, class string) gen.Case {
 		}
 		for rn, v := range wantCV {
 			if gotCV[rn] != v || cnt[rn] != docsPerShard {
-				return fail(i, "stale-shard", "Search serves version %d of %s (%d files), disk has version %d", gotCV[rn], rn, cnt[rn], v)
+				key := "stale-shard"
+				if aba(rn) {
+					key = "aba-during-load"
+				}
+				return fail(i, key, "Search serves version %d of %s (%d files), disk has version %d", gotCV[rn], rn, cnt[rn], v)
 			}
 		}
 		if len(gotCV) != len(wantCV) {
@@ -1330,13 +1361,152 @@ func runRScan(sq rscanSeq, class string) gen.Case {
 		for _, e := range rl.Repos {
 			mv, _ := strconv.Atoi(e.Repository.RawConfig["mv"])
 			if mv != wantMV[e.Repository.Name] {
-				return fail(i, "stale-sidecar", "List serves sidecar version %d of %s, disk has %d (0 = no sidecar)", mv, e.Repository.Name, wantMV[e.Repository.Name])
+				key := "stale-sidecar"
+				if aba(e.Repository.Name) {
+					key = "aba-during-load"
+				}
+				return fail(i, key, "List serves sidecar version %d of %s, disk has %d (0 = no sidecar)", mv, e.Repository.Name, wantMV[e.Repository.Name])
 			}
 		}
 	}
 	c.Nontrivial = reloads >= 2
 	if midScans > 0 {
 		c.Class = class + ":directory-changed-during-load"
+	}
+	return c
+}
+
+// ---------------------------------------------------------------------------------------------------------------
+// slowload: one call of the real loader.load that runs longer than its 5 s progress interval with every load slot busy
+// (slow storage), so that it publishes what it has so far *while other shards of the same call are still being loaded*,
+// then continues. Whatever is on disk and loadable when the call returns must be loaded.
+//
+// Slow storage is a named pipe with a shard name: opening it blocks until the harness opens the other end (the load then
+// fails, as for any non-shard file). GOMAXPROCS(0) of them occupy every slot; the real shards queue up behind them.
+// After 5.5 s the harness frees `first` slots: the loader starts loading the next real shard(s), notices that 5 s
+// have passed and publishes the intermediate batch with those loads in flight; then the remaining pipes are freed.
+
+type slowCfg struct {
+	Reals   int    `json:"reals"`   // real shards queued behind the slow ones
+	First   int    `json:"first"`   // slots freed at 5.5 s (the rest 400 ms later)
+	Sidecar bool   `json:"sidecar"` // real shards carry a .meta sidecar
+	Seed    uint64 `json:"seed"`
+}
+
+// progressLog counts the loader's "still need to load" messages (= intermediate publications).
+type progressLog struct{ n atomic.Int64 }
+
+func (p *progressLog) Write(b []byte) (int, error) {
+	if bytes.Contains(b, []byte("still need to load")) {
+		p.n.Add(1)
+	}
+	return len(b), nil
+}
+
+var loaderLog = &progressLog{}
+
+func openPipeWriter(path string) {
+	deadline := time.Now().Add(5 * time.Second)
+	for {
+		fd, err := syscall.Open(path, syscall.O_WRONLY|syscall.O_NONBLOCK, 0)
+		if err == nil {
+			syscall.Close(fd)
+			return
+		}
+		if time.Now().After(deadline) {
+			return
+		}
+		time.Sleep(2 * time.Millisecond) // ENXIO: the reader is not blocked in open yet
+	}
+}
+
+func runSlowLoad(cfg slowCfg, class string) gen.Case {
+	dir := mkTmp("slow")
+	defer os.RemoveAll(dir)
+	c := gen.Case{Class: class, Detail: gen.Detail(map[string]any{"kind": "slowload", "case": cfg})}
+	slots := runtime.GOMAXPROCS(0)
+	var keys, pipes, reals []string
+	for i := 0; i < slots; i++ {
+		// loader.load logs its keys through humanTruncateList, which sorts the slice in place: the slow ones must sort first
+		p := filepath.Join(dir, fmt.Sprintf("00slow%03d_v16.00000.zoekt", i))
+		if err := syscall.Mkfifo(p, 0o644); err != nil {
+			c.Go, c.Key = "mkfifo: "+err.Error(), "slowload-setup"
+			return c
+		}
+		pipes = append(pipes, p)
+	}
+	for i := 0; i < cfg.Reals; i++ {
+		p := filepath.Join(dir, shardBase(i, 16))
+		if err := os.WriteFile(p, buildShard(fmt.Sprintf("repo%d", i), uint32(i+1), i+1, docsPerShard), 0o644); err != nil {
+			panic(err)
+		}
+		if cfg.Sidecar {
+			meta, _ := json.Marshal(&zoekt.Repository{Name: fmt.Sprintf("repo%d", i), ID: uint32(i + 1), RawConfig: map[string]string{"mv": strconv.Itoa(i + 1)}})
+			os.WriteFile(p+".meta", meta, 0o644)
+		}
+		reals = append(reals, p)
+	}
+	keys = append(append(keys, pipes...), reals...)
+	vs := search.VerifNewShardedSearcher(2)
+	before := loaderLog.n.Load()
+	done := make(chan struct{})
+	go func() { vs.Load(keys...); close(done) }() // the real loader.load; marks the searcher ready when it returns
+	time.Sleep(5500 * time.Millisecond)
+	first := cfg.First
+	if first < 1 {
+		first = 1
+	}
+	if first > len(pipes) {
+		first = len(pipes)
+	}
+	for _, p := range pipes[:first] {
+		openPipeWriter(p)
+	}
+	time.Sleep(400 * time.Millisecond)
+	for _, p := range pipes[first:] {
+		openPipeWriter(p)
+	}
+	select {
+	case <-done:
+	case <-time.After(30 * time.Second):
+		for _, p := range pipes {
+			openPipeWriter(p)
+		}
+		c.Go, c.Key = "loader.load did not return within 30s after the slow shards became readable", "stuck"
+		return c
+	}
+	published := int(loaderLog.n.Load() - before)
+	c.Nontrivial = published > 0
+	if published > 0 {
+		c.Class = class + ":intermediate-publication"
+	}
+	// oracle: everything loadable on disk is loaded and served
+	sort.Strings(reals)
+	if got := vs.Keys(); strings.Join(got, ",") != strings.Join(reals, ",") {
+		c.Go = fmt.Sprintf("after a load call that published %d intermediate batch(es): loaded %v, loadable shards on disk %v", published, baseNames(got), baseNames(reals))
+		c.Key = "loaded-set"
+		return c
+	}
+	ss := vs.Streamer()
+	res, err := ss.Search(context.Background(), &query.Substring{Pattern: "needle"}, &zoekt.SearchOptions{})
+	if err != nil || res.Stats.Crashes != 0 {
+		c.Go, c.Key = fmt.Sprintf("Search: %v crashes=%d", err, res.Stats.Crashes), "search-crash"
+		return c
+	}
+	cnt := map[string]int{}
+	for _, f := range res.Files {
+		cnt[f.Repository]++
+	}
+	for i := 0; i < cfg.Reals; i++ {
+		if cnt[fmt.Sprintf("repo%d", i)] != docsPerShard {
+			c.Go = fmt.Sprintf("Search serves %d of %d files of repo%d although its shard is on disk and the searcher is ready", cnt[fmt.Sprintf("repo%d", i)], docsPerShard, i)
+			c.Key = "loaded-set"
+			return c
+		}
+	}
+	rl, err := ss.List(context.Background(), &query.Const{Value: true}, nil)
+	if err != nil || len(rl.Repos) != cfg.Reals {
+		c.Go, c.Key = fmt.Sprintf("List: %v, %d repositories, disk has %d", err, len(rl.Repos), cfg.Reals), "loaded-set"
 	}
 	return c
 }
@@ -1382,6 +1552,10 @@ func runStored(w *gen.Writer, st stored, class string) {
 		if st.RSeq != nil {
 			w.Emit(runRScan(*st.RSeq, class))
 		}
+	case "slowload":
+		var cfg slowCfg
+		json.Unmarshal(st.Case, &cfg)
+		w.Emit(runSlowLoad(cfg, class))
 	case "conc":
 		var cfg concCfg
 		json.Unmarshal(st.Case, &cfg)
@@ -1452,7 +1626,7 @@ func main() {
 		os.Args = append(os.Args[:1], os.Args[3:]...)
 	}
 	f := gen.ParseFlags()
-	log.SetOutput(io.Discard)
+	log.SetOutput(loaderLog) // discards everything, counts the loader's progress messages
 	tmpRoot = os.Getenv("VERIF_WORK")
 	if tmpRoot == "" {
 		tmpRoot = os.TempDir()
@@ -1592,6 +1766,22 @@ func childMain(f gen.Flags) {
 		}
 	}
 
+	// slow-load scenarios mostly wait (5.5 s each): run them beside the other phases, emit them at the end
+	nslow := f.N(2, 6)
+	slowRes := make(chan gen.Case, nslow)
+	{
+		sr := r.Fork()
+		var cfgs []slowCfg
+		for i := 0; i < nslow; i++ {
+			cfgs = append(cfgs, slowCfg{Reals: sr.Range(2, 5), First: gen.Pick(sr, []int{1, 1, 2, 3}), Sidecar: sr.Bool(), Seed: sr.U64()})
+		}
+		go func() {
+			for _, cfg := range cfgs { // one after the other: each needs every load slot of its own loader only, but also threads
+				slowRes <- runSlowLoad(cfg, "slowload")
+			}
+		}()
+	}
+
 	t0 := time.Now()
 	lap := func(name string) {
 		w.Count("ms:"+name, int(time.Since(t0).Milliseconds()))
@@ -1628,6 +1818,12 @@ func childMain(f gen.Flags) {
 		concAndE2E(w, r, 0, 1, "")
 	}
 	lap("e2e")
+
+	w = ph.next()
+	for i := 0; i < nslow; i++ {
+		w.Emit(<-slowRes)
+	}
+	lap("slowload-wait")
 
 	if f.Tier == "thorough" {
 		w = ph.next()
